@@ -159,6 +159,51 @@ def disturbed_distribution(src, n=3):
     src.reach('done')
 
 
+@rigged
+def formula_and_removals(src, k=3):
+    """H16h: an application whose operational status is a formula over a *pattern*, fed with k solver-chosen events of
+    its processes - state changes, removals (update_numprocs decrease / group removal) and additions - from the
+    instances that know them: the status is re-evaluated after every event without internal error"""
+    from rig.core import process_info
+    core = FC.operational(2)
+    ids = core.ids
+    names = ['p_0', 'p_1']
+    known = {}
+    for nme in names:
+        known[nme] = set(src.pick(f'known_{nme}', [(0,), (1,), (0, 1)]))
+        for i in known[nme]:
+            core.add_process(ids[i], 'fapp', nme, PS.STOPPED)
+    app = core.context.applications['fapp']
+    adapter.set_rules(app.rules, managed=True, start_sequence=1)
+    app.rules.status_formula = src.pick('formula', ['all("p_.*")', 'any("p_.*")', '"p_0" and "p_1"', 'all("p_.") or "p_0"'])
+    core.finalize_rules()
+    for step in range(k):
+        nme = src.pick(f'who{step}', names)
+        sender = src.pick_int(f'from{step}', 0, 1)
+        kind = src.pick(f'kind{step}', ['running', 'fatal', 'removed', 'added', 'group_removed'])
+        status = core.context.instances[ids[sender]]
+        if kind == 'removed':
+            core.fsm.on_process_removed_event(status, {'group': 'fapp', 'name': nme})
+            known[nme].discard(sender)
+        elif kind == 'group_removed':
+            core.fsm.on_process_removed_event(status, {'group': 'fapp', 'name': '*'})
+            for x in names:
+                known[x].discard(sender)
+        elif kind == 'added':
+            core.fsm.on_process_added_event(status, process_info('fapp', nme, PS.STOPPED, now=CLOCK[0].t))
+            known[nme].add(sender)
+        elif sender in known[nme]:
+            st = PS.RUNNING if kind == 'running' else PS.FATAL
+            core.process_event(ids[sender], 'fapp', nme, st, expected=kind == 'running')
+        src.check('events-handled-without-internal-error', not core.logger.tracebacks(), sig=_site(core.logger
+                                                                                                   .tracebacks()),
+                  log=core.logger.tracebacks()[:1])
+    core.tick()
+    src.check('events-handled-without-internal-error', not core.logger.tracebacks(), sig=_site(core.logger.tracebacks()),
+              log=core.logger.tracebacks()[:1])
+    src.reach('done')
+
+
 class _OnlyInternalErrors:
     """passes everything to the source but keeps only the internal-error assertion of the reused scenario"""
     def __init__(self, src):
@@ -183,6 +228,8 @@ HARNESSES = [
             doc='unplaceable / placeable start requests through the real Starter raise no internal error'),
     Harness('H16g', disturbed_distribution, quick={'n': 3}, thorough={'n': 3}, reach=('done',), timeout=(90, 300),
             doc='crashes and restarts during a real pending DISTRIBUTION leave no critical traceback'),
+    Harness('H16h', formula_and_removals, quick={'k': 2}, thorough={'k': 3}, reach=('done',), timeout=(90, 600),
+            doc='status formula over a pattern under process removals / additions / state events'),
     Harness('H16a', one_event, quick={'n': 2, 'fsm_states': ['SYNCHRONIZATION', 'ELECTION', 'DISTRIBUTION',
                                                              'OPERATION', 'CONCILIATION']},
             thorough={'n': 2}, reach=('done',), timeout=(200, 1800),
